@@ -25,7 +25,8 @@ ASSUMPTIONS = [
     "get at most a user handler for the skip class (which cannot claim a failure or an error)",
 ]
 
-PROG = st.one_of(P.programs(multi=True, expect=True, force=True, cleanup_depth=2, p_raise=6, extras=True, skip_handlers=True),
+PROG = st.one_of(P.programs(multi=True, expect=True, force=True, cleanup_depth=2, p_raise=6, extras=True, skip_handlers=True,
+                            texts=True, rets=True, upcall=True, decor=True),
                  P.programs(custom=True, cleanup_depth=1, p_raise=0))
 CASE = st.fixed_dictionaries({"prog": PROG, "flavour": st.sampled_from(["ext", "real", "ext"])})
 FAILING = {"addFailure", "addError", "addUnexpectedSuccess"}
@@ -44,6 +45,10 @@ def run_case(spec):
         vs.append(V("one-outcome", "count", "%d outcomes %r for raised %r" % (len(outs), outs, kinds)))
         return Case(vs, True, ["no-single-outcome"])
     out = outs[0]
+    if model.skipped_by_decorator:
+        if out != "addSkip":
+            vs.append(V("single-mapping", "decorator-skip->" + out, "a skip-decorated test was reported as %s" % out))
+        return Case(vs, False, ["decorator-skip"])
     # (1) success <=> nothing raised
     if (out == "addSuccess") != (not model.raised) and not prog["handlers"]:
         vs.append(V("success-iff-clean", "false-success" if out == "addSuccess" else "false-failure",
